@@ -22,6 +22,60 @@ TITLE = "Levels and quantities interconvert by the logarithmic definition"
 LOSSY_CALLS = {"round", "int", "float", "abs", "math.floor", "math.ceil", "math.trunc", "floor", "ceil", "trunc", "format", "str", "repr", "hash"}
 
 
+def logarithm_prefix_product(rep: Report, prog: Program, resolver: Resolver) -> None:
+    """R18.12: `prefix * logarithm` is the logarithm whose step is scaled by that prefix: the prefix of the result has
+    the value of (the logarithm's own prefix) x (the new prefix), whatever their bases (Centi * Semitone is 1/1200, not
+    12**-3); the base is kept.  Decided like the prefix algebra of C11: log-values (exponent * ln base) under each arm's
+    path condition, with Prefix.__mul__ interpreted, not assumed."""
+    from ..absint import NotImpl, ObjV, PrefixS, GroupV, prefix_struct
+    from ..algebra import substitute_path
+    qual = "Logarithm.__mul__"
+    fi = prog.func(qual)
+    mine, ot = prefix_struct("self"), prefix_struct("other")
+    me = ObjV("Logarithm", {"base": NumV(Rat.atom("B")), "prefix": mine})
+    try:
+        run = run_function(prog, resolver, qual, ("dimension",), {"self": me, fi.params()[1]: ot})
+    except Unsupported as e:
+        raise AnalysisError(f"{qual}: {e}")
+    n = 0
+    for o in run.outcomes:
+        if o.kind != "return" or isinstance(o.value, NotImpl):
+            continue
+        # conditions of inlined callees arrive as `<Callee: a & not b>`; Prefix.__mul__'s own self/other are this call's
+        flat: List = []
+        for text, truth in o.path:
+            if text.startswith("<") and ": " in text and truth:
+                for part in text[text.index(": ") + 2:].rstrip(">").split(" & "):
+                    neg = part.startswith("not ")
+                    flat.append((part[4:] if neg else part, not neg))
+            else:
+                flat.append((text.replace("self.prefix", "self"), truth))
+        arm = "&".join(("" if v else "not ") + t for t, v in flat) or "-"
+        got = o.value
+        n += 1
+        if not (isinstance(got, ObjV) and got.cls == "Logarithm"):
+            rep.fail("R18.12", f"{qual}|{arm}", f"{qual} returns {describe(got)}, not a Logarithm", fi.where(o.node))
+            continue
+        b = got.fields.get("base")
+        rep.check("R18.12", f"{qual}|{arm}:base", isinstance(b, NumV) and b.rat == Rat.atom("B"),
+                  f"the prefixed logarithm has base {describe(b)}, not the base of the logarithm it was made from", fi.where(o.node))
+        px = got.fields.get("prefix")
+        if isinstance(px, PrefixS):
+            glog = px.logv
+        elif isinstance(px, GroupV) and px.kind == "P" and not px.mono:
+            glog = Rat.const(0)
+        else:
+            raise AnalysisError(f"{qual} builds its prefix as {describe(px)} on arm {arm}: outside the interpreted subset")
+        want = substitute_path(mine.logv + ot.logv, flat)
+        glog = substitute_path(glog, flat)
+        rep.check("R18.12", f"{qual}|{arm}", glog == want,
+                  f"log-value of the new logarithm's prefix is {glog!r}; scaling the step by the prefix requires {want!r} "
+                  "(exponents of prefixes of different bases are added: Centi * Semitone gets the step 12**-3 instead of 1/1200)",
+                  fi.where(o.node), note=repr(glog))
+    if n == 0:
+        raise AnalysisError(f"{qual}: no prefix arm analysed")
+
+
 def interning_keys(rep: Report, prog: Program) -> None:
     """R18.7: Logarithm and LogarithmicUnit are interned first-wins under a key; the unit a reference
     gets back has *that first reference*.  The key must therefore determine (base, prefix) /
@@ -106,6 +160,8 @@ def run(rep: Report) -> None:
     rep.rule("R18.8", "membership of the reference's dimension in ROOT_POWER_DIMENSIONS cannot go stale: interned classes hash by identity or over "
              "fields nothing assigns after construction (shared with C02 R02.11)", floor=5)
     rep.rule("R18.7", "Logarithm / LogarithmicUnit are interned under a key that determines their defining arguments exactly", floor=6)
+    rep.rule("R18.12", "prefix * logarithm: the result keeps the base and its prefix is the product of the logarithm's prefix and the new one "
+             "(log-values add on every arm, Prefix.__mul__ interpreted)", floor=4)
     rep.rule("R18.6", "Level.__eq__ compares through quantify() on every arm", floor=2)
 
     # ---- level()
@@ -257,6 +313,7 @@ def run(rep: Report) -> None:
                   f"(comparisons seen: {[ast.unparse(e.node) for e in cmps]}): both sides must be the denoted quantities, compared with "
                   "Quantity.__eq__ so that x == y exactly when y == x", leq.where())
     interning_keys(rep, prog)
+    logarithm_prefix_product(rep, prog, resolver)
     from ..quantity_rules import check_plain_ctor
     check_plain_ctor(rep, prog, "R18.11", "Level", {"magnitude": ["$p"], "unit": ["$p"]})
     from .c11 import value_preservation
